@@ -343,7 +343,7 @@ HOSTILE = {
                      "application/x-www-form-urlencoded; charset=undefined", "application/json; charset=zlib", "multipart/form-data; boundary=b; charset=hex"],
     "Content-Length": ["-1", "abc", "9" * 5000, "1.5", "١٢", "", " ", "0x10", "1e3", "٣"],
     "Cookie": ["", ";", "=", "a", "a=\"", "a=\\", "a=\"\\", "a=\"\\07", "a=\"\\9\"", "=;=;", ";" * 300, "a=\xff", "a=" + "\\" * 99, 'a="\\"'],
-    "Date": ["", "x", "Wed, 21 Oct 2015 07:28:00 +9999999999", "Wed, 21 Oct 99999 07:28:00 GMT", "Wed, 32 Oct 2015 07:28:00 GMT", "0", "Wed, 21 Oct 2015 25:61:61 GMT",
+    "Date": ["Wed, 21 Oct 2015 07:28:00 -0000", "Wed, 21 Oct 2015 07:28:00", "Wed, 21 Oct 2015 07:28:00 XYZ", "", "x", "Wed, 21 Oct 2015 07:28:00 +9999999999", "Wed, 21 Oct 99999 07:28:00 GMT", "Wed, 32 Oct 2015 07:28:00 GMT", "0", "Wed, 21 Oct 2015 25:61:61 GMT",
              "Wed, 21 Oct 2015 07:28:00 -" + "9" * 50, "21 Oct 0000 00:00:00 GMT", "Wed, 21 Oct 2015 07:28:00 GMT" * 10, "1 Jan 1 0:0:0 +9999", "Thu, 01 Jan 1970 00:00:00 -2400",
              "Mon, 01 Jan 0001 00:00:00 +0100", "Fri, 31 Dec 9999 23:59:59 -0100", "\x00", "Wed, 21 Oct 2015 07:28:00 " + "9" * 400],
     "Referer": ["http://[", "http://[::1", "http://]", "//[x]/", "http://a:b/", "http://a:99999999/", "http://[::1]:x/", "\x00", "http://\xff/", "http://a@b@c:d/", "http://[v1.x]/", "http://[::1]x/"],
@@ -351,7 +351,8 @@ HOSTILE = {
     "Range": ["bytes=", "bytes=a-b", "bytes=" + "9" * 5000 + "-", "bytes=-" + "9" * 5000, "bytes=٣-٥", "=", "bytes", "bytes=0-" + "1" * 5000, "bytes=--1", "bytes=1-2-3", "bytes=" + "0-0," * 3000 + "0-0"],
     "If-Range": ["", "x", "\xff", '"', "W/"],
     "If-None-Match": ["", ",", '"', "W/", "W/W/", ",,,", "\xff", "*,*"],
-    "If-Modified-Since": ["", "x", "Wed, 21 Oct 2015 07:28:00 +9999999999", "Wed, 21 Oct 99999 07:28:00 GMT", "1 Jan 1 0:0:0 -9999", "Mon, 01 Jan 0001 00:00:00 +0100",
+    "If-Modified-Since": ["Wed, 21 Oct 2015 07:28:00 -0000", "Wed, 21 Oct 2015 07:28:00", "Wed, 21 Oct 2015 07:28:00 XYZ", "21 Oct 2015 07:28 -00", "Wed, 21 Oct 2015 07:28:00 UT",
+                          "Wednesday, 21-Oct-15 07:28:00 GMT", "Wed Oct 21 07:28:00 2015", "", "x", "Wed, 21 Oct 2015 07:28:00 +9999999999", "Wed, 21 Oct 99999 07:28:00 GMT", "1 Jan 1 0:0:0 -9999", "Mon, 01 Jan 0001 00:00:00 +0100",
                           "Fri, 31 Dec 9999 23:59:59 -0100", "Wed, 21 Oct 2015 07:28:00 " + "9" * 400, "Thu, 01 Jan 1970 00:00:00 GMT", "Wed, 31 Dec 1969 00:00:00 GMT"],
     "Transfer-Encoding": ["", "Chunked", "gzip, chunked"],
 }
@@ -470,6 +471,21 @@ def request_case(draw, for_apps=False):
         labels.append("odd-charset")
         hostile = True
     path = draw(_paths)
+    if for_apps and draw(st.booleans()):
+        # reach the file / route handlers: an existing target plus hostile validators
+        path = draw(st.sampled_from([b"/file.txt", b"/index.html", b"/dir/", b"/dir/a", b"/\xc3\xa9.txt", b"/", b"/i/42", b"/t/2021-03-07", b"/s/x", b"/a/b/c"]))
+        for name in draw(st.lists(st.sampled_from(["If-Modified-Since", "If-None-Match", "Range", "If-Range", "Host"]), min_size=1, max_size=3, unique=True)):
+            v = draw(st.sampled_from(HOSTILE[name] + VALID[name]))
+            if draw(st.integers(0, 4)) == 0:
+                v = mutate(draw, v)
+            v = v.replace("\r", "").replace("\n", "").strip(" \t")
+            try:
+                v.encode("latin-1")
+            except UnicodeEncodeError:
+                v = v.encode("utf-8").decode("latin-1")
+            headers = [h for h in headers if h[0] != name] + [[name, v]]
+        hostile = True
+        labels.append("targeted-app-request")
     query = draw(_queries)
     ctype = next((v for k, v in headers if k == "Content-Type"), "")
     body = _bodies(draw, ctype)
